@@ -23,4 +23,7 @@ def run(ctx):
     # wave 11: the low-priority flag is back to "normal output" whenever a :host rule is done, whatever the at-rule stack holds -
     # or the next @import writes its placeholder into the wrong output (shared with C17.pair)
     obs += [o for o in cp.host_rules(ctx, 'C18') if '.pair/low-priority' in o['key']]
+    # an @import inside a rule-bearing at-rule is rewritten like one at the top: the rule-list parser runs whenever the table
+    # says so, at any depth (shared with C08.rules)
+    obs += [o for o in cp.rules_rule(ctx, 'C18') if '/table-only' in o['key'] or '/dispatch' in o['key']]
     return obs
